@@ -224,6 +224,8 @@ Inductive event :=
 | SendAll                           (* tag "SENDALL" *)
 | Wait                              (* the environment lets time pass until a save happens (or gives up) *)
 | SaveTick (now : value) (faults : list bool)     (* a save timer fired: saveState(lastMessages) *)
+| InUse (key : string) (v : value)  (* not a message: the RPC layer has put configuration [key] = v into effect
+                                       (e.g. WriteControl START under a base path succeeded); no effect on the updater *)
 | Restart.                          (* a second dastard is started on the directory as it is now (RunRPCServer
                                        and PrepareRun restore what they find); the running one is not affected *)
 
@@ -273,6 +275,7 @@ Definition step (y : sys) (e : event) : sys * out :=
                v_config := v_config y; v_over := v_over y; disk := disk y |}, Published sent)
       else (y, Published sent)
   | Wait => (y, Waited (armed y))
+  | InUse _ _ => (y, Published [])
   | SaveTick now faults =>
       let '(y', tr) := save_state y now faults in
       ({| objs := objs y'; texts := texts y'; armed := false;
